@@ -8,7 +8,7 @@ GUARD = 'BERENGER_EU_TBFMM_VERIF'
 NCPU = int(os.environ.get('VERIF_JOBS', str(os.cpu_count() or 4)))
 
 CLANG_BASE = ['clang++-14', '-std=c++17', '-O1', '-fno-vectorize', '-fno-slp-vectorize', '-fno-unroll-loops',
-              '-fno-exceptions', '-D' + GUARD, '-I' + os.path.join(REPO, 'src'), '-I' + os.path.join(VERIF, 'wrappers'),
+              '-fno-exceptions', '-ffp-contract=off', '-D' + GUARD, '-I' + os.path.join(REPO, 'src'), '-I' + os.path.join(VERIF, 'wrappers'),
               '-S', '-emit-llvm', '-Wno-everything']
 UBSAN = ['-fsanitize=signed-integer-overflow,shift,integer-divide-by-zero,bounds,vla-bound,null',
          '-fsanitize-trap=all']
